@@ -11,5 +11,6 @@ func TestVerif(t *testing.T) {
 	kernel.WorkerMain(t, map[string]kernel.Property{
 		"C06": C06{},
 		"C08": C08{},
+		"C17": C17{},
 	})
 }
